@@ -972,6 +972,18 @@ def _handle_upload_pack_head(
     if protocol_version != 2:
         proto.write_pkt_line(None)
 
+    shallow_updates: tuple[set[ObjectID], set[ObjectID]] | None = None
+    if (
+        protocol_version != 2
+        and can_read is not None
+        and (depth not in (0, None) or shallow_since is not None or shallow_exclude)
+    ):
+        # In protocol v0/v1 the server answers a deepen request right away
+        # with its shallow/unshallow section, before it ACKs anything. Read
+        # that section now: the ACK polling below would otherwise pick up
+        # its lines and drop them (or trip over its terminating flush-pkt).
+        shallow_updates = _read_shallow_updates(proto.read_pkt_seq())
+
     have = next(graph_walker)
     in_vain = 0
     got_ack = False
@@ -1005,7 +1017,9 @@ def _handle_upload_pack_head(
         proto.write_pkt_line(None)
 
     if depth not in (0, None) or shallow_since is not None or shallow_exclude:
-        if can_read is not None:
+        if shallow_updates is not None:
+            (new_shallow, new_unshallow) = shallow_updates
+        elif can_read is not None:
             (new_shallow, new_unshallow) = _read_shallow_updates(proto.read_pkt_seq())
         else:
             new_shallow = None
